@@ -175,11 +175,14 @@ pub fn check(rep: &Report) {
     let t = crate::thorough(&rep.tier);
     // strings behind shared-string indices past the 16-bit boundary (families shared with C02 / C03)
     rayon::join(|| crate::props::c02::large_sst(rep), || crate::props::c03::large_sst(rep));
-    rep.rule("strings = every concatenation of <= 3 atoms from {a, space, two spaces, tab, LF, &, <, >, \", ', ]]>, e-acute, euro, U+1F600} plus \"\" and one 32767-character string; xls / xlsb tables of 255..66000 strings referenced past the 8- and 16-bit index boundaries; storage forms: xlsx shared/inline/formula-string x entities/decimal/hex character references/CDATA x {plain t, 1-3 rich runs, rPh + phoneticPr} x empty <si/> before/between x namespace prefix; xlsb Isst (plain/rich/phonetic)/St/FmlaString; xls SST (plain/rich/ExtRst)/LABEL/STRING x 8/16-bit; ods content with text:s variants, literal spaces, spans, paragraphs, or string-value attribute; full form product for strings of <= 2 atoms (thorough: 3), <= 1 deviation for 3-atom strings; non-trivial = non-default storage form or multi-atom string; distinct by file bytes");
+    rep.rule("strings = every concatenation of <= 3 atoms from {a, space, two spaces, tab, LF, &, <, >, \", ', ]]>, e-acute, euro, U+1F600} plus \"\", runs of 66 / 70 / 130 blanks, a CJK-only text and one 32767-character string; xls / xlsb tables of 255..66000 strings referenced past the 8- and 16-bit index boundaries; storage forms: xlsx shared/inline/formula-string x entities/decimal/hex character references/CDATA x {plain t, 1-3 rich runs, rPh + phoneticPr} x empty <si/> before/between x namespace prefix; xlsb Isst (plain/rich/phonetic)/St/FmlaString; xls SST (plain/rich/ExtRst)/LABEL/STRING x 8/16-bit; ods content with text:s variants, literal spaces, spans, paragraphs, or string-value attribute; full form product for strings of <= 2 atoms (thorough: 3), <= 1 deviation for 3-atom strings; non-trivial = non-default storage form or multi-atom string; distinct by file bytes");
     rep.assume("a cell holding the empty string may read as Empty or String(\"\"); in ods element content a tab is the text:tab element");
     let mut strings: Vec<String> = vec![String::new()];
     for a in ATOMS { strings.push(a.to_string()); }
     for a in ATOMS { for b in ATOMS { strings.push(format!("{a}{b}")); } }
+    // long runs of blanks (a space element with a count of 65 and more), blanks only, and text whose characters all take three
+    // bytes in UTF-8
+    strings.push(format!("a{}b", " ".repeat(70))); strings.push(format!("{}x", " ".repeat(66))); strings.push(" ".repeat(130)); strings.push("\u{65e5}\u{672c}\u{8a9e}".into()); strings.push("\u{20ac}".into());
     let n_full = strings.len();
     for a in ATOMS { for b in ATOMS { for c in ATOMS { strings.push(format!("{a}{b}{c}")); } } }
     let long: String = "abcdefg \u{e9}".repeat(3640) + "zzzzzzz";
